@@ -3,6 +3,7 @@
 package props
 
 import (
+	"math"
 	"encoding/json"
 	"fmt"
 	"os"
@@ -268,6 +269,81 @@ func c15units(tier string) []mc.Unit {
 			r.Bound("structured", fmt.Sprintf("assembled annotated sequences with at most %d deviations: 10 text kinds (ASCII, accents, CJK, emoji, quote, backslash, <&>, newline/tab, U+2028, empty) in 7 string fields, absent/empty/populated references, other keywords, attributes and features, 10 location shapes (to depth 4, partial flags, single-child wrapper nodes), cached location text, topology; each value re-checked after the next Parse", dev))
 		}})
 	}
+	// pairs of JSON-hostile tokens in two string fields (what one value ends with may change how a later one is read)
+	us = append(us, mc.Unit{Name: "token-pairs", Weight: 60, Run: func(r *mc.Recorder) {
+		var prev c15prev
+		var cnt int64
+		toks := []string{"\\", "\\\\", "\"", "\\\"", "//", "/*", "*/", "#", "http://example.org/a//b", "'", "<", "&", "\u2028", "{", "}", "[", "]", ":", ",", "null", "1e3", "\n", "\t", "\u00e9", "\U0001F9EC", "-->", "\x00", "\r\n"}
+		var vals []string
+		for _, t := range toks {
+			vals = append(vals, "word"+t, "a "+t+" b", t)
+		}
+		for _, a := range vals {
+			for _, b := range vals {
+				var x poly.Sequence
+				x.Sequence = "ACGTACGTAC"
+				x.Description = a
+				x.Meta = poly.Meta{Name: "n", Definition: "plain", Locus: poly.Locus{Name: "l"}, Other: map[string]string{"COMMENT": a}}
+				f := poly.Feature{Name: "f", Type: "gene", Description: b, Attributes: map[string]string{"note": b, a: "key"}}
+				f.SequenceLocation = poly.Location{Start: 1, End: 5}
+				x.AddFeature(&f)
+				x.Features[0].SequenceLocation = poly.Location{Start: 1, End: 5}
+				cnt++
+				c15judge(r, fmt.Sprintf("description %q, then feature note %q", a, b), []string{"token-pair"}, x, &prev)
+			}
+			if r.Enough() {
+				break
+			}
+		}
+		r.Eval(cnt)
+		r.AddStates(cnt)
+		r.AddTransitions(cnt)
+		r.AddNontrivial(cnt)
+		r.Bound("token-pairs", fmt.Sprintf("all ordered pairs of %d values (%d tokens as suffix, infix, whole value) in an early and a late string field", len(vals), len(toks)))
+	}})
+	// integers at the edges of int32, of exact float64 representation and of int64, in every integer field
+	us = append(us, mc.Unit{Name: "integer-edges", Weight: 20, Run: func(r *mc.Recorder) {
+		var prev c15prev
+		var cnt int64
+		edges := []int{0, -1, 1, 1000, 1<<31 - 1, 1 << 31, 1<<32 + 1, 1<<53 - 1, 1 << 53, 1<<53 + 1, 1<<53 + 3, 9007199254740993, -(1<<53 + 1), 123456789012345679, 1000000000000000007, 1<<62 + 1, math.MaxInt64 - 1, math.MaxInt64, math.MinInt64 + 1, math.MinInt64}
+		for _, v := range edges {
+			for field := 0; field < 6; field++ {
+				var x poly.Sequence
+				x.Sequence = "ACGTACGTAC"
+				x.Meta = poly.Meta{Name: "n", RegionStart: 1, RegionEnd: 10, Size: 9, Locus: poly.Locus{Name: "l"}}
+				loc := poly.Location{Start: 1, End: 5}
+				sub := poly.Location{Start: 2, End: 3}
+				switch field {
+				case 0:
+					x.Meta.RegionStart = v
+				case 1:
+					x.Meta.RegionEnd = v
+				case 2:
+					x.Meta.Size = v
+				case 3:
+					loc.Start = v
+				case 4:
+					loc.End = v
+				case 5:
+					sub.End = v
+				}
+				f := poly.Feature{Name: "f", Type: "gene"}
+				if field == 5 {
+					loc = poly.Location{Join: true, SubLocations: []poly.Location{{Start: 0, End: 1}, sub}}
+				}
+				f.SequenceLocation = poly.Location{Start: 1, End: 2}
+				x.AddFeature(&f)
+				x.Features[0].SequenceLocation = loc // the coordinates are data of their own: they must survive as they are
+				cnt++
+				c15judge(r, fmt.Sprintf("integer %d in field %s", v, []string{"Meta.RegionStart", "Meta.RegionEnd", "Meta.Size", "Location.Start", "Location.End", "a nested Location.End"}[field]), []string{"integer-edge"}, x, &prev)
+			}
+		}
+		r.Eval(cnt)
+		r.AddStates(cnt)
+		r.AddTransitions(cnt)
+		r.AddNontrivial(cnt)
+		r.Bound("integer-edges", fmt.Sprintf("%d integers (edges of int32, of exact float64 integers, of int64) x 6 integer fields", len(edges)))
+	}})
 	// parser outputs over generated GenBank files, and GenBank -> JSON -> GenBank
 	for sh := -1; sh < gbNumShapes; sh++ {
 		sh := sh
